@@ -14,10 +14,10 @@ Inductive gexp :=
   | GRate (hybrid : bool) (r : ratec)          (* x' == r, either operand order *)
   | GAnd (a b : gexp) | GOr (a b : gexp) | GNot (a : gexp) | GForall (a : gexp) | GExists (a : gexp).
 (* updates: a comma list of expressions, assignments among them *)
-Inductive upd := UAssign (fp hybrid : bool) | UOther (fp : bool).     (* "=" with uses_fp / uses_hybrid of the whole assignment; anything else *)
+Inductive upd := UAssign (fp hybrid : bool) | UOther (fp : bool).     (* "=" with uses_fp of the whole assignment and "the target is a hybrid clock in every branch"; anything else *)
 
 Record edge := mkedge { e_guard : option gexp; e_assign : list upd }.
-Record var := mkvar { v_clock : bool; v_init_fp : bool }.                (* is a clock; has an initialiser that uses floating point *)
+Record var := mkvar { v_clock : bool; v_init_fp : bool }.                (* is or contains (array element, record field) a clock; has an initialiser that uses floating point *)
 Record chan := mkchan { c_broadcast : bool }.
 Record templ := mktempl { t_instantiated : bool; t_vars : list var; t_chans : list chan; t_invs : list gexp; t_edges : list edge }.
 Record doc := mkdoc { d_vars : list var; d_chans : list chan; d_templs : list templ; d_dynamic : bool; d_priorities : bool }.
@@ -33,13 +33,13 @@ Fixpoint guard_flags (g : gexp) : bool :=
   | GAnd a b | GOr a b => guard_flags a || guard_flags b
   | GNot a | GForall a | GExists a => guard_flags a
   end.
-(* isRateDisallowedInSymbolic: looks through conjunctions and universal quantifiers only *)
+(* isRateDisallowedInSymbolic: looks through conjunctions, disjunctions and universal quantifiers *)
 Definition rate_bad (hybrid : bool) (r : ratec) : bool :=
   if hybrid then false else match r with RInt z => negb (Z.eqb z 0) && negb (Z.eqb z 1) | RDouble01 is01 => negb is01 | RExpr => false end.
 Fixpoint rate_flags (g : gexp) : bool :=
   match g with
   | GRate h r => rate_bad h r
-  | GAnd a b => rate_flags a || rate_flags b
+  | GAnd a b | GOr a b => rate_flags a || rate_flags b
   | GForall a => rate_flags a
   | _ => false
   end.
@@ -65,12 +65,12 @@ Fixpoint spec_fp_compare (g : gexp) : Prop :=
   | GAnd a b | GOr a b => spec_fp_compare a \/ spec_fp_compare b
   | GNot a | GForall a | GExists a => spec_fp_compare a
   end.
-(* a non-hybrid clock rate is set to a constant other than 0 or 1, in a conjunct (possibly quantified) of an invariant *)
+(* a non-hybrid clock rate is set to a constant other than 0 or 1, in a conjunct or disjunct (possibly quantified) of an invariant *)
 Fixpoint spec_bad_rate (g : gexp) : Prop :=
   match g with
   | GRate false (RInt z) => z <> 0%Z /\ z <> 1%Z
   | GRate false (RDouble01 false) => True
-  | GAnd a b => spec_bad_rate a \/ spec_bad_rate b
+  | GAnd a b | GOr a b => spec_bad_rate a \/ spec_bad_rate b
   | GForall a => spec_bad_rate a
   | _ => False
   end.
@@ -100,6 +100,7 @@ Proof.
   induction g; cbn; intros H; try tauto.
   - destruct hybrid; [tauto|]. destruct r as [z|[|]|]; cbn; try tauto.
     destruct H as [H0 H1]. apply Z.eqb_neq in H0, H1. rewrite H0, H1. reflexivity.
+  - destruct H as [H|H]; [rewrite (IHg1 H)|rewrite (IHg2 H)]; auto using orb_true_r.
   - destruct H as [H|H]; [rewrite (IHg1 H)|rewrite (IHg2 H)]; auto using orb_true_r.
 Qed.
 Lemma upd_sound u : spec_fp_assign u -> upd_flags u = true.
